@@ -152,8 +152,8 @@ class Op:
         return onnx.defs.get_schema(self.name, self.modver, self.domain)
 
 
-SUBGRAPH_OPS = {"Scan", "SequenceMap"}  # not generated
-BODY_OPS = {"If", "Loop"}  # generated with Identity bodies over outer-scope values
+SUBGRAPH_OPS: set = set()  # (all four subgraph operators are generated)
+BODY_OPS = {"If", "Loop", "Scan", "SequenceMap"}  # generated with Identity bodies over outer-scope values
 
 
 _SIG_RE = re.compile(r"Signature: ``([\w.]+)@(\d+)::(\w+)``")
@@ -421,7 +421,38 @@ def _gen_body_call(rng, op: Op, force: Optional[str] = None) -> dict:
 
     cond_elem = 9 if family != "illtyped" or rng.random() < 0.5 else rng.choice([1, 7])
     cond_shape = [] if rng.random() < 0.8 else rng.choice([[1], None, [2]])
-    if op.name == "If":
+    if op.name == "SequenceMap":
+        vars_.append({"ty": {"seq": {"t": e, "s": list(base) if family != "unkrank" else None}}, "const": None})
+        seq = len(vars_) - 1
+        add = []
+        for k in range(rng.choice([0, 0, 1, 2])):
+            if rng.random() < 0.5:
+                add.append(pool_var(k))
+            else:
+                vars_.append({"ty": {"seq": {"t": rng.choice([e, 7]), "s": _variant(rng, base)}}, "const": None})
+                add.append(len(vars_) - 1)
+        if family == "illtyped":
+            vars_[seq] = {"ty": {"t": e, "s": list(base)}, "const": None}  # a tensor where a sequence is required
+        outs = [rng.randrange(1 + len(add)) for _ in range(rng.choice([1, 1, 2, 3]))]
+        call = {"module": op.module, "op": "SequenceMap", "vars": vars_, "args": [seq, add], "attrs": {},
+                "sub": {"outs": outs}, "out_count": len(outs), "family": family}
+    elif op.name == "Scan":
+        L0 = rng.choice([3, 4, "T", None])
+        ns, nscan = rng.choice([0, 1, 1, 2]), rng.choice([1, 1, 2])
+        state = [pool_var(k) for k in range(ns)]
+        scan = []
+        for k in range(nscan):
+            sh = _variant(rng, base)
+            if family == "unkrank" and rng.random() < 0.4:
+                scan.append(tvar(e, None))
+            else:
+                d0 = L0 if rng.random() < 0.85 else rng.choice([2, 5])
+                scan.append(tvar(e if rng.random() < 0.8 else 7, [d0] + (sh if sh is not None else [])))
+        souts = [rng.randrange(nscan) for _ in range(rng.choice([0, 1, 1, 2]) if ns else rng.choice([1, 2]))]
+        call = {"module": op.module, "op": "Scan", "vars": vars_, "args": [state + scan],
+                "attrs": {"num_scan_inputs": nscan if family != "illtyped" or rng.random() < 0.5 else nscan + ns + 1},
+                "sub": {"n_state": ns, "scan_outs": souts}, "out_count": ns + len(souts), "family": family}
+    elif op.name == "If":
         cond = tvar(cond_elem, cond_shape)
         n = rng.choice([1, 1, 2, 3])
         then, els = [], []
@@ -894,6 +925,30 @@ def oracle_bodies(call):
                 outs.append(onnx.helper.make_value_info(f"{key}{k}", T(v)))
             out.append((aname, onnx.helper.make_graph(nodes, key, [], outs), list(sub[key])))
         return out
+    if call["op"] == "SequenceMap":
+        seq, add = call["args"]
+        tys = []
+        for v in [seq] + list(add):
+            t = call["vars"][v]["ty"]
+            tys.append(t["seq"] if "seq" in t else t)
+        ins = [onnx.helper.make_value_info(f"b{k}", ty_to_proto(t)) for k, t in enumerate(tys)]
+        nodes = [onnx.helper.make_node("Identity", [f"b{k}"], [f"q{n}"]) for n, k in enumerate(sub["outs"])]
+        outs = [onnx.helper.make_value_info(f"q{n}", ty_to_proto(tys[k])) for n, k in enumerate(sub["outs"])]
+        return [("body", onnx.helper.make_graph(nodes, "body", ins, outs), [])]
+    if call["op"] == "Scan":
+        allv = call["args"][0]
+        ns = sub["n_state"]
+        tys = []
+        for k, v in enumerate(allv):
+            t = call["vars"][v]["ty"]
+            tys.append(t if k < ns else {"t": t["t"], "s": None if t["s"] is None else t["s"][1:]})
+        ins = [onnx.helper.make_value_info(f"b{k}", ty_to_proto(t)) for k, t in enumerate(tys)]
+        nodes = [onnx.helper.make_node("Identity", [f"b{k}"], [f"r{k}"]) for k in range(ns)]
+        outs = [onnx.helper.make_value_info(f"r{k}", ty_to_proto(tys[k])) for k in range(ns)]
+        for n, j in enumerate(sub["scan_outs"]):
+            nodes.append(onnx.helper.make_node("Identity", [f"b{ns + j}"], [f"s{n}"]))
+            outs.append(onnx.helper.make_value_info(f"s{n}", ty_to_proto(tys[ns + j])))
+        return [("body", onnx.helper.make_graph(nodes, "body", ins, outs), [])]
     carried = call["args"][2]
     ins = [onnx.helper.make_tensor_value_info("it", 7, []), onnx.helper.make_tensor_value_info("c_in", 9, [])]
     ins += [onnx.helper.make_value_info(f"b{k}", T(v)) for k, v in enumerate(carried)]
@@ -1077,7 +1132,7 @@ def _model_json(m: onnx.ModelProto) -> dict:
     }
 
 
-def run_spox(op: Op, call, value_prop: bool = False) -> dict:
+def run_spox(op: Op, call, value_prop: bool = False, vs=None) -> dict:
     """Call the real constructor through the public API; observe the exception or the output types.
     Best-effort observations for the correspondence (never fatal; failures go to `obs_errors`): the
     request spox made to onnx.shape_inference (model + flags + answer) and the node object."""
@@ -1085,7 +1140,8 @@ def run_spox(op: Op, call, value_prop: bool = False) -> dict:
     res: dict = {"raised": None, "types": None, "captured": [], "node": None, "obs_errors": []}
     with warnings.catch_warnings():
         warnings.simplefilter("ignore")
-        vs = make_vars(call)
+        if vs is None:
+            vs = make_vars(call)
         kwargs = {}
         params = [p for p in inspect.signature(fn).parameters.values()]
         pos = [p.name for p in params if p.kind == p.POSITIONAL_OR_KEYWORD]
@@ -1102,7 +1158,11 @@ def run_spox(op: Op, call, value_prop: bool = False) -> dict:
         if call.get("sub"):
             idn = module_constructors(op.module)["Identity"]
             sub = call["sub"]
-            if op.name == "If":
+            if op.name == "SequenceMap":
+                kwargs["body"] = lambda *b: [idn(b[k]) for k in sub["outs"]]
+            elif op.name == "Scan":
+                kwargs["body"] = lambda *b: [idn(b[k]) for k in range(sub["n_state"])] + [idn(b[sub["n_state"] + j]) for j in sub["scan_outs"]]
+            elif op.name == "If":
                 kwargs["then_branch"] = lambda: [idn(vs[v]) for v in sub["then"]]
                 kwargs["else_branch"] = lambda: [idn(vs[v]) for v in sub["else"]]
             else:
@@ -1237,3 +1297,207 @@ def model_request(op: Op, call, sp: dict) -> Optional[dict]:
         else:
             req["infer"] = "reject"
     return req
+
+
+# ------------------------------------------------------------------------------ call histories
+def _variadic_output(op: Op) -> bool:
+    O = onnx.defs.OpSchema.FormalParameterOption
+    return any(p.option == O.Variadic for p in op.schema().outputs)
+
+
+def _variant_of(rng, op: Op, base: dict, vars_: list, facet: str):
+    """A copy of `base` (sharing `vars_`, possibly appending new Vars) that differs in exactly one facet.
+    Returns None if the facet does not apply."""
+    import copy
+
+    sch = op.schema()
+    O = onnx.defs.OpSchema.FormalParameterOption
+    c = copy.deepcopy({k: v for k, v in base.items() if k != "vars"})
+    c["vars"] = vars_  # shared list object
+    if facet == "out_count":
+        if not _variadic_output(op) and not base.get("sub"):
+            return None
+        if base.get("sub"):
+            sub = c["sub"]
+            if op.name == "SequenceMap":
+                sub["outs"] = sub["outs"][:-1] if len(sub["outs"]) > 1 and rng.random() < 0.5 else sub["outs"] + [sub["outs"][0]]
+                c["out_count"] = len(sub["outs"])
+            elif op.name == "Scan":
+                if sub["scan_outs"] and (sub["n_state"] or len(sub["scan_outs"]) > 1) and rng.random() < 0.5:
+                    sub["scan_outs"] = sub["scan_outs"][:-1]
+                else:
+                    sub["scan_outs"] = sub["scan_outs"] + [0]
+                c["out_count"] = sub["n_state"] + len(sub["scan_outs"])
+            elif op.name == "If":
+                if len(sub["then"]) > 1 and rng.random() < 0.5:
+                    sub["then"], sub["else"] = sub["then"][:-1], sub["else"][:-1]
+                else:
+                    sub["then"], sub["else"] = sub["then"] + [sub["then"][0]], sub["else"] + [sub["else"][0]]
+                c["out_count"] = len(sub["else"])
+            else:
+                if sub["scan"] and rng.random() < 0.5:
+                    sub["scan"] = sub["scan"][:-1]
+                    if not sub["scan"] and not sub["carried"]:
+                        return None
+                else:
+                    pool = sub["scan"] or [v for v in sub["carried"] if v != "same"] or list(c["args"][2])
+                    if not pool:
+                        return None
+                    sub["scan"] = sub["scan"] + [pool[0]]
+                c["out_count"] = len(sub["carried"]) + len(sub["scan"])
+            return c
+        old = base.get("out_count") or 1
+        new = rng.choice([k for k in (1, 2, 3, 4) if k != old])
+        c["out_count"] = new
+        if "num_outputs" in sch.attributes:
+            c["attrs"]["num_outputs"] = new
+        return c
+    if facet == "attr":
+        T = onnx.defs.OpSchema.AttrType
+        names = [a for a, d in sorted(sch.attributes.items())
+                 if d.type in (T.INT, T.INTS, T.FLOAT, T.FLOATS, T.STRING) and a != "num_outputs"]
+        if not names or op.name in ("Constant", "Scan"):
+            return None  # (Scan: the hand-written body assumes the default axes / directions)
+        a = rng.choice(names)
+        try:
+            ann = {p.name: str(p.annotation) for p in inspect.signature(constructor(op)).parameters.values()}
+        except (TypeError, ValueError):
+            ann = {}
+        rank = 2
+        for v in vars_:
+            if v["ty"] and "t" in v["ty"] and v["ty"]["s"] is not None:
+                rank = len(v["ty"]["s"])
+                break
+        if a in c["attrs"] and not sch.attributes[a].required and rng.random() < 0.4:
+            del c["attrs"][a]
+            return c
+        for _ in range(8):
+            val = _gen_attr_value(rng, op.name, a, sch.attributes[a], rank, "DTypeLike" in ann.get(a, ""))
+            if val is not None and val != c["attrs"].get(a):
+                c["attrs"][a] = val
+                return c
+        return None
+    flat = [(i, None, a) for i, a in enumerate(c["args"]) if a is not None and not isinstance(a, list)]
+    flat += [(i, j, v) for i, a in enumerate(c["args"]) if isinstance(a, list) for j, v in enumerate(a)]
+
+    def put(i, j, v):
+        if j is None:
+            c["args"][i] = v
+        else:
+            c["args"][i][j] = v
+
+    if facet == "const":
+        cands = [(i, j, v) for i, j, v in flat if vars_[v]["const"] is not None]
+        if not cands:
+            return None
+        i, j, v = rng.choice(cands)
+        old = vars_[v]["const"]
+        for _ in range(8):
+            if old["dtype"] == 7 and len(old["shape"]) <= 1:
+                data = [x + rng.choice([1, 1, 2, -1]) if rng.random() < 0.7 else x for x in old["data"]]
+            else:
+                data = _const_data(rng, old["dtype"], old["shape"])
+            if data != old["data"]:
+                vars_.append({"ty": vars_[v]["ty"], "const": {"dtype": old["dtype"], "shape": old["shape"], "data": data}})
+                put(i, j, len(vars_) - 1)
+                return c
+        return None
+    if facet == "optional":
+        opts = [i for i, p in enumerate(sch.inputs) if p.option == O.Optional and i < len(c["args"])]
+        if not opts or base.get("sub"):
+            return None
+        i = rng.choice(opts)
+        if c["args"][i] is not None:
+            c["args"][i] = None
+            return c
+        p = parse_type_str(sch.inputs[i].type_str)
+        if p is None:  # a type variable: reuse the type of another present tensor argument
+            src = [v for _, _, v in flat if vars_[v]["ty"] and "t" in vars_[v]["ty"]]
+            if not src:
+                return None
+            ty = {"t": vars_[src[0]]["ty"]["t"], "s": []}
+        elif p[0] == "tensor":
+            ty = {"t": p[1], "s": [] if rng.random() < 0.5 else [rng.choice([1, 2, 3])]}
+        else:
+            return None
+        vars_.append({"ty": ty, "const": None})
+        c["args"][i] = len(vars_) - 1
+        return c
+    if facet == "shape":
+        cands = [(i, j, v) for i, j, v in flat if vars_[v]["const"] is None and vars_[v]["ty"] and "t" in vars_[v]["ty"]]
+        if not cands:
+            return None
+        i, j, v = rng.choice(cands)
+        old = vars_[v]["ty"]
+        for _ in range(8):
+            if old["s"] is None:
+                new = _rand_dims(rng, rng.randint(0, 3))
+            else:
+                new = list(old["s"])
+                k = rng.random()
+                if new and k < 0.6:
+                    new[rng.randrange(len(new))] = rng.choice([1, 2, 3, 4, 5, 6, "P", None])
+                elif k < 0.8:
+                    new = new + [rng.choice([1, 2, 3])]
+                else:
+                    new = None
+            if new != old["s"]:
+                vars_.append({"ty": {"t": old["t"], "s": new}, "const": None})
+                put(i, j, len(vars_) - 1)
+                return c
+        return None
+    return None
+
+
+FACETS = ["out_count", "attr", "const", "optional", "shape"]
+
+
+def gen_history(rng, op: Op, want_facet: Optional[str] = None) -> Optional[dict]:
+    """2-4 calls of one operator that share the input Vars and differ from the first call in exactly
+    one facet each. Returns {"vars": [...], "calls": [...], "facets": [...]} or None."""
+    base = None
+    for _ in range(6):
+        cand = gen_call(rng, op, force=rng.choice(["plain", "plain", "reuse"]))
+        if "skip" in cand:
+            return None
+        try:
+            if not oracle_run(op, cand)["reject"]:
+                base = cand
+                break
+        except Exception:  # noqa: BLE001
+            pass
+        base = base or cand
+    if base is None:
+        return None
+    vars_ = base["vars"]
+    calls, facets = [base], ["base"]
+    order = list(FACETS)
+    rng.shuffle(order)
+    if want_facet:
+        order = [want_facet] + [f for f in order if f != want_facet]
+    n = rng.choice([1, 2, 3])
+    for f in order:
+        if len(calls) > n:
+            break
+        v = _variant_of(rng, op, base, vars_, f)
+        if v is not None:
+            calls.append(v)
+            facets.append(f)
+    if len(calls) < 2:
+        return None
+    for c in calls:
+        c["vars"] = vars_
+        c["family"] = "history"
+    return {"vars": vars_, "calls": [{k: v for k, v in c.items() if k != "vars"} for c in calls], "facets": facets}
+
+
+def history_calls(hist: dict) -> list:
+    return [dict(c, vars=hist["vars"]) for c in hist["calls"]]
+
+
+def run_history(op: Op, hist: dict) -> list:
+    """All calls of the history in this process, one after the other, on the same Var objects."""
+    with warnings.catch_warnings():
+        warnings.simplefilter("ignore")
+        vs = make_vars({"vars": hist["vars"]})
+    return [run_spox(op, c, vs=vs) for c in history_calls(hist)]
